@@ -8,8 +8,9 @@ that is an action (plain messages are not stored in `_nodes`), nothing under any
 `_completed` sets have the same members.  `add_refines`: whenever the trie's `Task.add m` succeeds on a
 message inside the domain (`PlainDom`: a plain message does not arrive at a level where an action is
 already known, a single-message task arrives in an empty task), the code-shaped upward walk `FTask.add m`
-succeeds as well and re-establishes `Inv`; hence `root()` and `is_complete()` agree (`flat_root_eq`,
-`flat_complete_eq`) after any sequence of additions (`addAll_refines`).
+succeeds as well and re-establishes `Inv`; hence `root()` and `is_complete()` agree (`Inv.root_eq`,
+`Inv.complete_eq`) after any sequence of additions on which the trie succeeds (`addAll_refines`).  Nothing is proved
+about `FTask.add` where the trie's `add` fails.
 -/
 namespace PM
 
@@ -378,9 +379,12 @@ structure Inv (ft : FTask) (t : Task) : Prop where
   sorted : ∀ n, t.root = some n → n.Sorted
   comp : CEq ft.completed t.completed
 
-/-- Where the code's map and the trie can part: a plain message arriving at a level at which an action is
-already known (the code keeps the action in `_nodes` although its parent now holds the message), and a
-single-message task (`task_level == [1]`, no `action_type`) arriving in a task that already has nodes. -/
+/-- Two of the three places where the code's map and the trie part: a plain message arriving at a level at which an
+action is already known (the code keeps the action in `_nodes` although its parent now holds the message), and a
+single-message task (`task_level == [1]`, no `action_type`) arriving in a task that already has nodes.  The third
+needs no hypothesis because the theorems are conditional on the trie's success: a message arriving at or below a
+plain message makes the trie fail with `underMessage`, while the code (and `FTask.add`) puts a placeholder action
+there. -/
 def PlainDom (t : Task) (m : PMsg) : Prop :=
   m.atype = none →
     if m.level = [1] then t.root = none else ∀ x, t.lookup m.level = some x → x.isAct = false
